@@ -40,10 +40,16 @@ def registry_effects(evs):
         elif e.kind == "call":
             f = e.extra.get("func", "")
             m = re.fullmatch(r"self\.(_\w+)(\[(.+)\])?\.(\w+)", f)
+            if m is None:
+                # an alias of a handler set bound on this path: handlers = self._handlers[watch]; handlers.remove(h)
+                m2 = re.fullmatch(r"self\.(_handlers)\[(.+)\]\.(\w+)", f)
+                m = m2
             if m and m.group(1) in COLL:
-                op = m.group(4)
+                op = m.group(4) if m.re.groups == 4 else m.group(3)
                 c = COLL[m.group(1)]
-                key = m.group(3) or (e.extra.get("args") or [""])[0]
+                key = (m.group(3) if m.re.groups == 4 else m.group(2)) or (e.extra.get("args") or [""])[0]
+                if c == "H" and m.re.groups == 4 and m.group(2):
+                    c = "h"  # element of one watch's handler set, not the key of the registry
                 if op in ADD:
                     out.append((c, "+", key, e))
                 elif op in REM:
@@ -126,11 +132,13 @@ def run(ctx) -> None:
         ctx.sample({"raise_at": callee, "net_effect": [(c, k) for c, k, _ in left]})
 
     # ---------------------------------------------------------------- coherent effects
+    # h = an element of one watch's handler set, H = a key of the handler registry
     allowed = [
-        {"H", "E", "M", "W"},  # add watch
-        {"H", "W"},  # add handler to an existing watch (watch add is idempotent)
-        {"H"},  # add handler only
-        {"H-"},  # remove handler only
+        {"h", "E", "M", "W"},  # add watch (the defaultdict creates the key with the first handler)
+        {"H", "h", "E", "M", "W"},
+        {"h", "W"},  # add handler to an existing watch (watch add is idempotent)
+        {"h"},  # add handler only
+        {"h-"},  # remove handler only: the key stays as long as the watch is scheduled
         {"H-", "E-", "M-", "W-"},  # remove watch
         {"H0", "E0", "M0", "W0"},  # clear
         set(),
@@ -151,7 +159,7 @@ def run(ctx) -> None:
                 sig in allowed,
                 RC,
                 f"{mname} [{p.sig()[:80]}]",
-                f"{mname}() changes the collections {sorted(sig)} on a normal path: the four collections no longer describe the same set of watches",
+                f"{mname}() changes {sorted(sig)} on a normal path (h = one handler, H = the watch's registry entry, E/M/W = emitters / emitter map / watches; -: removed, 0: cleared): the four collections no longer describe the same set of watches",
                 mfi.loc,
                 {"effects": [(c, op, k) for c, op, k, _ in registry_effects(p.evs)]},
             )
@@ -215,6 +223,7 @@ VARIANTS = [
     dict(name="B drop _watches.add", expect="fire", rule="C13/coherent-effects", edits=[(API, "            self._watches.add(watch)\n        return watch", "        return watch")]),
     dict(name="B drop emitter-map membership test", expect="fire", rule="C13/", edits=[(API, "            if watch not in self._emitter_for_watch:", "            if True:")]),
     dict(name="B unschedule forgets _watches", expect="fire", rule="C13/coherent-effects", edits=[(API, "            self._remove_emitter(emitter)\n            self._watches.remove(watch)", "            self._remove_emitter(emitter)")]),
+    dict(name="B removing the last handler deletes the watch's registry entry", expect="fire", rule="C13/coherent-effects", edits=[(API, "            self._handlers[watch].remove(event_handler)", "            handlers = self._handlers[watch]\n            handlers.remove(event_handler)\n            if not handlers:\n                self._remove_handlers_for_watch(watch)")]),
     dict(name="B hash from the path only", expect="fire", rule="C13/watch-identity", edits=[(API, "        return hash(self.key)\n\n    def __repr__", "        return hash(self.path)\n\n    def __repr__")]),
     dict(name="B key drops the filter", expect="fire", rule="C13/watch-identity", edits=[(API, "        return self.path, self.is_recursive, self.event_filter", "        return self.path, self.is_recursive")]),
     dict(name="E registration undone on failure", expect="silent", edits=[(API, "                emitter = self._emitter_class(self.event_queue, watch, timeout=self.timeout, event_filter=event_filter)\n                if self.is_alive():\n                    emitter.start()\n                self._add_emitter(emitter)", "                emitter = self._emitter_class(self.event_queue, watch, timeout=self.timeout, event_filter=event_filter)\n                self._add_emitter(emitter)\n                if self.is_alive():\n                    try:\n                        emitter.start()\n                    except Exception:\n                        del self._emitter_for_watch[emitter.watch]\n                        self._emitters.remove(emitter)\n                        raise")]),
